@@ -3,6 +3,7 @@ import Upa.Impl.CanParse
 import Upa.Impl.Canon
 import Upa.Impl.Rep
 import Upa.Impl.FilePath
+import Upa.Impl.SetRepApi
 import Upa.Spec.Api
 import Upa.Spec.Form
 /-
@@ -387,7 +388,73 @@ partial def loop (idna : Idna) (h : IO.FS.Stream) (out : IO.FS.Stream) (st : St)
   out.putStrLn o
   loop idna h out st'
 
-def main : IO Unit := do
+/-! ### `driver setrep`: the operational model of the in-place edits (Impl/SetRep.lean, Impl/SetRepApi.lean)
+  replayed on the raw stored representation the C++ harness dumped BEFORE each setter call / params update;
+  the result must be the representation dumped AFTER it, exactly (zeros of never-started parts included),
+  and must stand for the record the record-level setter computes. -/
+
+def unhexBytes (s : String) : List Nat :=
+  if s == "-" then [] else
+  let rec go : List Char → List Nat
+    | a :: b :: r => (hexCharVal a * 16 + hexCharVal b) :: go r
+    | _ => []
+  go s.toList
+
+def parseRawRep (toks : List String) : Option Rep :=
+  match toks with
+  | [n, pe, fl, seg, si] =>
+    let flags := fl.toNat!
+    let sidx := si.toInt!
+    some { norm := unhexBytes n, partEnd := (pe.splitOn ",").map String.toNat!,
+           hostNotNull := flags.testBit 5, portNotNull := flags.testBit 6,
+           queryNotNull := flags.testBit 9, fragmentNotNull := flags.testBit 10,
+           opaquePath := flags.testBit 11, hostType := (flags >>> 13) &&& 7,
+           segCount := seg.toNat!, schemeIdx := if sidx < 0 then none else some sidx.toNat }
+  | _ => none
+
+def rawRepStr (r : Rep) : String :=
+  s!"{hx r.norm} {natList r.partEnd} h{b01 r.hostNotNull}p{b01 r.portNotNull}q{b01 r.queryNotNull}f{b01 r.fragmentNotNull}o{b01 r.opaquePath}t{r.hostType} {r.segCount} {match r.schemeIdx with | some i => toString i | none => "-1"}"
+
+/-- url_search_params::update (url_search_params-inl.h:25-40) on the representation -/
+def updateRep (r : Rep) (ser : List Nat) : Rep :=
+  if ser.isEmpty then stripTrailingSpacesRep (clearPart r QUERY) else writePartFlag r QUERY ser
+
+def setrepStep (idna : Idna) (line : String) : String :=
+  match line.splitOn " | " with
+  | [op, before, after] =>
+    match parseRawRep (before.splitOn " "), parseRawRep (after.splitOn " "), op.splitOn " " with
+    | some b, some a, [kind, sname, enc, units, ok] =>
+      let okC := ok == "1"
+      -- the record the BEFORE state stands for; the from-scratch layout of it must be the before state up to
+      -- the encoding of never-started parts (else the history before this step already broke C05)
+      let u := b.toRecord
+      if (layout u).fill != b.fill then s!"BADSTATE before is not a layout: record gives {rawRepStr (layout u)}" else
+      if kind == "set" then
+        let s := parseSetter sname
+        let e := parseEnc enc
+        let us := parseUnits units
+        let (r, okM) := setRep idna s e us b
+        let (u', okR) := setValid idna s e us u
+        if r != a || okM != okC then s!"MISMATCH model={rawRepStr r} ret={b01 okM}"
+        else if r.fill != (layout u').fill || okR != okC then s!"RECORD-MISMATCH layout-of-record={rawRepStr (layout u')} ret={b01 okR}"
+        else "ok"
+      else if kind == "update" then
+        let r := updateRep b (unhexBytes units)
+        if r != a then s!"MISMATCH model={rawRepStr r}" else "ok"
+      else if kind == "none" then
+        if b != a then s!"MISMATCH model={rawRepStr b}" else "ok"
+      else "BADOP"
+    | _, _, _ => "BADSTEP"
+  | _ => "BADLINE"
+
+partial def setrepLoop (idna : Idna) (h out : IO.FS.Stream) : IO Unit := do
+  let line ← h.getLine
+  if line.isEmpty then return ()
+  out.putStrLn (setrepStep idna line.trimAsciiEnd.toString)
+  setrepLoop idna h out
+
+def main (args : List String) : IO Unit := do
   let stdin ← IO.getStdin
   let stdout ← IO.getStdout
-  loop idnaOracle stdin stdout {}
+  if args == ["setrep"] then setrepLoop idnaOracle stdin stdout
+  else loop idnaOracle stdin stdout {}
